@@ -8,6 +8,18 @@ restore the file. Prints one line per break."""
 import subprocess, sys, os, json
 WT = '/tmp/wt-c01'
 BREAKS = [
+ ('unified-filter-row-stride-uses-numWGY', 'amd/driver/driver.go',
+  'wg.IDY*int(numWGX) +', 'wg.IDY*int(numWGY) +', 1),
+ ('unified-filter-x-y-swapped', 'amd/driver/driver.go',
+  'wg.IDY*int(numWGX) +\n\t\t\t\t\twg.IDX', 'wg.IDX*int(numWGX) +\n\t\t\t\t\twg.IDY', 1),
+ ('unified-filter-numWGX-from-grid-y', 'amd/driver/driver.go',
+  'numWGX := (pkt.GridSizeX-1)/uint32(pkt.WorkgroupSizeX) + 1\n\t\t\tnumWGY := (pkt.GridSizeY-1)', 'numWGX := (pkt.GridSizeY-1)/uint32(pkt.WorkgroupSizeY) + 1\n\t\t\tnumWGY := (pkt.GridSizeY-1)', 1),
+ ('unified-share-from-numWGY-only', 'amd/driver/driver.go',
+  'totalWGCount := int(numWGX * numWGY * numWGZ)', 'totalWGCount := int(numWGY * numWGZ)\n\t_ = numWGX', 1),
+ ('unified-share-from-numWGX-only', 'amd/driver/driver.go',
+  'totalWGCount := int(numWGX * numWGY * numWGZ)', 'totalWGCount := int(numWGX * numWGZ)\n\t_ = numWGY', 1),
+ ('unified-share-numWGY-squared', 'amd/driver/driver.go',
+  'totalWGCount := int(numWGX * numWGY * numWGZ)', 'totalWGCount := int(numWGY * numWGY * numWGZ)', 1),
  ('emu-vop2-addc-drops-carry-in', 'amd/emu/aluvop2.go',
   'state.WriteOperand(inst.Dst, i, src0+src1+carry)', 'state.WriteOperand(inst.Dst, i, src0+src1)', 1),
  ('emu-vop2-cndmask-operands-swapped', 'amd/emu/aluvop2.go', None, None, 0),
@@ -62,7 +74,7 @@ def main():
         try:
             rc_s, out_s = run('/verif/tools/suite32.sh ' + WT)
             suite = out_s.strip().splitlines()[-1] if out_s.strip() else '?'
-            rc, out = run('cd /tmp/c01root && bin/vcheck C01 quick', env={'VERIF_REPO': WT, 'VERIF_ROOT': '/tmp/c01root'})
+            rc, out = run('cd /verif && bin/vcheck C01 quick', env={'VERIF_REPO': WT})
             viol = [l for l in out.splitlines() if l.startswith('[C01]   key=')]
             print('%-45s suite32: %-28s vcheck exit=%d new_violations=%d' % (name, suite if rc_s == 0 else 'FAIL ' + suite, rc, len(viol)))
             for l in viol[:4]: print('      ', l[:200])
